@@ -762,6 +762,10 @@ def bitset_primitives(P, R, rule):
                 cands += [x for x in walk(c)]
         hits = [x for x in cands if x.get('k') == 'bin' and x.get('op') in ('&', '|', '^') and {v for v in vars_in(x)} >= set(ins)]
         if not hits:
+            # the result word is not formed from both inputs in one expression (e.g. `out = in2; out |= in1`): callers
+            # pass the destination as an operand (`or(x, x, y)`), so a two-step form reads its own half-written output
+            n += 1
+            R.ob(rule, False, f, '%s forms each result word from both input words in one expression (safe when the destination is one of the operands)' % name, key='bitset:%s' % name)
             continue
         x = hits[0]
 
@@ -819,7 +823,7 @@ def loops_of(fn):
     return out
 
 
-def full_traversal(P, R, rule, fn, is_iter_cond, what):
+def full_traversal(P, R, rule, fn, is_iter_cond, what, error_returns=False):
     """A loop that is meant to visit every element of a container is left only when the container is exhausted: no
     edge leaves its body except through the loop head (an early `break` / `return` on a skippable element silently
     drops every element behind it).  is_iter_cond(cond) selects the loop by its head condition."""
@@ -833,9 +837,73 @@ def full_traversal(P, R, rule, fn, is_iter_cond, what):
         for x in body:
             for e in fn.out[x]:
                 if e.dst not in body and e.dst != head:
+                    if error_returns:
+                        # leaving with a failure result (a non-zero / computed return value) is not "stopping early"
+                        ss = fn.block_sites(e.dst)
+                        if ss and ss[-1].ev['k'] == 'ret' and ss[-1].ev.get('val') is not None and const_of(ss[-1].ev['val']) != 0 and all(t.ev['k'] == 'ret' for t in ss):
+                            continue
                     exits.append(e)
         n += 1
         loc = (fn.blocks[head].get('term') or {}).get('loc')
         R.ob(rule, not exits, P.relloc(loc) if loc else fn, '%s: the loop is left only when every element has been visited%s' % (what, (' (early exit: %s)' % exits[0].describe()) if exits else ''),
              key='full-traversal:%s' % fn.name)
+    return n
+
+
+def vector_walks(P, R, rule, units=None):
+    """A loop that runs an index up to one vector's element count subscripts that vector: inside `for (i = ..; i <
+    A.used; ..)` every `B.vec[i]` has B = A.  (Walking one vector by another's count reads beyond it, or stops short.)
+    Loops whose head compares with several counts, or that subscript with something other than the loop index, are
+    not judged."""
+    from .model import rel as _rel
+    n = 0
+    for f in P.fns.values():
+        if f.unit.startswith('tests/') or (units and f.unit not in units):
+            continue
+        for head, body in loops_of(f):
+            c = f.term_cond(head)
+            r = _rel(c, True) if c is not None else None
+            if not (r and is_var(r[0]) and r[1] == '<' and isinstance(r[2], dict) and r[2].get('k') == 'mem' and r[2].get('field') == 'used'):
+                continue
+            iv, owner = r[0]['name'], sx(r[2].get('base'))
+            subs = []
+            for x in body:
+                for t in f.block_sites(x):
+                    for ex in event_exprs(t.ev):
+                        for y in walk(ex):
+                            if y.get('k') == 'idx' and is_var(y.get('index'), iv) and isinstance(y.get('base'), dict) and y['base'].get('k') == 'mem' and y['base'].get('field') == 'vec':
+                                subs.append((t, y))
+                c2 = f.term_cond(x)
+                for y in walk(c2) if c2 is not None else ():
+                    if y.get('k') == 'idx' and is_var(y.get('index'), iv) and isinstance(y.get('base'), dict) and y['base'].get('k') == 'mem' and y['base'].get('field') == 'vec':
+                        subs.append((x, y))
+            if not subs:
+                continue
+            # the index must not be re-based inside the body (nested walks use their own index)
+            # other vectors the index is bounded by where the subscript stands (compound loop conditions), and vectors
+            # whose count was copied from / to this one in the function
+            same_len = {owner}
+            for t in f.stores():
+                ev = t.ev
+                if ev['k'] == 'store' and ev.get('op') == '=' and isinstance(ev.get('lhs'), dict) and ev['lhs'].get('k') == 'mem' and ev['lhs'].get('field') == 'used' \
+                        and isinstance(ev.get('rhs'), dict) and ev['rhs'].get('k') == 'mem' and ev['rhs'].get('field') == 'used':
+                    a, b = sx(ev['lhs'].get('base')), sx(ev['rhs'].get('base'))
+                    if a in same_len or b in same_len:
+                        same_len |= {a, b}
+
+            def bounded_by(t):
+                bid = t.bid if hasattr(t, 'bid') else (t if isinstance(t, int) else None)
+                out = set()
+                if bid is None:
+                    return out
+                for g in f.guards(bid):
+                    if is_var(g[0], iv) and g[1] == '<' and isinstance(g[2], dict) and g[2].get('k') == 'mem' and g[2].get('field') == 'used':
+                        out.add(sx(g[2].get('base')))
+                return out
+            bad = [(t, y) for t, y in subs if sx(y['base'].get('base')) not in same_len and sx(y['base'].get('base')) not in bounded_by(t)]
+            n += 1
+            loc = (f.blocks[head].get('term') or {}).get('loc')
+            R.ob(rule, not bad, bad[0][0] if bad and hasattr(bad[0][0], 'loc') else (P.relloc(loc) if loc else f),
+                 'in %s the loop over %s.used subscripts %s.vec with its index%s' % (f.name, owner, owner, (' (also %s)' % ', '.join(sorted({sx(y) for _, y in bad}))) if bad else ''),
+                 key='vector-walk:%s:%s' % (f.name, owner))
     return n
